@@ -13,7 +13,7 @@ use std::fmt::Write as _;
 use syn::*;
 
 #[derive(Clone, Debug, PartialEq)]
-enum Ty { U8, U32, U64, I32, I64, Bool, W(usize), RMode, Class, F64U, F32U, DecDigits, N, Ord, OptOrd, Hasher, Arr(Box<Ty>, usize), Generic(String), Tuple(Vec<Ty>), Func(Vec<Ty>, Box<Ty>), Opt128, VecU32, Str, OptRMode, ResD128, Unit, Unknown }
+enum Ty { U8, U32, U64, I32, I64, Bool, W(usize), RMode, Class, F64U, F32U, DecDigits, N, Ord, OptOrd, Hasher, Arr(Box<Ty>, usize), Generic(String), Tuple(Vec<Ty>), Func(Vec<Ty>, Box<Ty>), Opt128, VecU32, Str, OptRMode, ResD128, Fmt, FmtRes, Unit, Unknown }
 
 impl Ty {
     fn lean(&self) -> String {
@@ -21,7 +21,7 @@ impl Ty {
             Ty::U8 => "UInt8".into(), Ty::U32 => "UInt32".into(), Ty::U64 => "UInt64".into(), Ty::I32 => "Int32".into(),
             Ty::I64 => "Int64".into(), Ty::Bool => "Bool".into(), Ty::W(n) => format!("U{}", n), Ty::RMode => "RoundingMode".into(), Ty::Class => "ClassTypes".into(),
             Ty::F64U => "F64U".into(), Ty::F32U => "F32U".into(), Ty::DecDigits => "DecDigits".into(), Ty::N => "Nat".into(), Ty::Ord => "Ordering".into(), Ty::OptOrd => "(Option Ordering)".into(),
-            Ty::Hasher => "(List UInt8)".into(), Ty::VecU32 => "(List UInt32)".into(), Ty::Str => "String".into(), Ty::OptRMode => "(Option RoundingMode)".into(), Ty::ResD128 => "(Except UInt32 U128)".into(), Ty::Arr(t, _) => format!("(Array {})", t.lean()), Ty::Generic(g) => format!("{}'", g),
+            Ty::Hasher => "(List UInt8)".into(), Ty::VecU32 => "(List UInt32)".into(), Ty::Str => "String".into(), Ty::OptRMode => "(Option RoundingMode)".into(), Ty::ResD128 => "(Except UInt32 U128)".into(), Ty::Fmt => "(List UInt8)".into(), Ty::FmtRes => "Bool".into(), Ty::Arr(t, _) => format!("(Array {})", t.lean()), Ty::Generic(g) => format!("{}'", g),
             Ty::Tuple(v) => format!("({})", v.iter().map(|t| t.lean()).collect::<Vec<_>>().join(" × ")),
             Ty::Func(a, r) => format!("({} → Except String {})", a.iter().map(|t| t.lean()).collect::<Vec<_>>().join(" → "), r.lean()),
             Ty::Opt128 => "(Option U128)".into(),
@@ -107,10 +107,12 @@ fn ty_of_type(t: &Type) -> (Ty, bool) {
                     if inner == Some(Ty::Ord) { Ty::OptOrd } else if inner == Some(Ty::W(128)) { Ty::Opt128 } else if inner == Some(Ty::RMode) { Ty::OptRMode } else { Ty::Unknown }
                 }
                 "str" => Ty::Str,
+                "Formatter" => Ty::Fmt,   // the text written so far, as bytes
                 "Result" => {
                     // `Result<Self, Self::Err>` of `impl FromStr for d128` (`type Err = u32`)
                     let a: Vec<String> = match &p.path.segments.last().unwrap().arguments { PathArguments::AngleBracketed(a) => a.args.iter().map(|g| quote::quote!(#g).to_string().replace(' ', "")).collect(), _ => vec![] };
-                    if a == vec!["Self".to_string(), "Self::Err".to_string()] { Ty::ResD128 } else { Ty::Unknown }
+                    // `std::fmt::Result` (no arguments): `true` = `Ok(())`
+                    if a == vec!["Self".to_string(), "Self::Err".to_string()] { Ty::ResD128 } else if a.is_empty() { Ty::FmtRes } else { Ty::Unknown }
                 }
                 "Vec" => {
                     let inner = match &p.path.segments.last().unwrap().arguments { PathArguments::AngleBracketed(a) => a.args.first().and_then(|g| if let GenericArgument::Type(t) = g { Some(ty_of_type(t).0) } else { None }), _ => None };
